@@ -517,6 +517,7 @@ var Profiles = []struct {
 	{"render", 14},
 	{"mixed", 14},
 	{"syscache", 6},
+	{"long1", 0},     // one or two tasks with 30-60 cheap calls each: state that builds up over a long history (selected explicitly by the driver's "long" batch)
 	{"geometry1", 0}, // one task, 3-8 geometry calls: pool behaviour within and between the calls of one caller (selected explicitly by the driver's "solo" batch)
 }
 
@@ -593,6 +594,15 @@ func GenRun(verifSeed uint64, run int, tier string, profiles []string) *RunSpec 
 		ntasks = 1
 		maxSteps = 3 + cfgR.Intn(6)
 	}
+	longSteps := 0
+	if spec.Profile == "long1" {
+		ntasks = 1
+		if cfgR.Intn(4) == 0 {
+			ntasks = 2
+		}
+		longSteps = 30 + cfgR.Intn(31)
+		l = latticeCfg{n: 3, cell: []float64{1, 10, 2.5}[cfgR.Intn(3)]} // small operands: many calls, little work each
+	}
 	if spec.Profile == "syscache" {
 		if ntasks < 2 {
 			ntasks = 2
@@ -617,9 +627,30 @@ func GenRun(verifSeed uint64, run int, tier string, profiles []string) *RunSpec 
 	for t := 0; t < ntasks; t++ {
 		ts := TaskSpec{MapSeed: simrt.Mix(seed, 0x6d6170, uint64(t))}
 		ns := 1 + wl.Intn(maxSteps)
+		if longSteps > 0 {
+			ns = longSteps
+		}
 		for s := 0; s < ns; s++ {
 			var st Step
 			switch spec.Profile {
+			case "long1":
+				switch y := wl.Intn(20); {
+				case y < 6:
+					st = genGeometryStep(wl, l, tols)
+				case y < 15:
+					// short texts in many sizes, fonts and styles: many distinct keys for whatever is cached
+					st = genTextStep(wl, nf, colW)
+					if len(st.Text) > 60 || wl.Bool(0.7) {
+						st.Text = genParagraph(wl, 1+wl.Intn(3)) // a few words: thousands of distinct short strings
+					}
+					st.Size = 6 + float64(wl.Intn(40))*0.5
+				case y < 17:
+					st = Step{Op: "svgpath", A: genShape(wl, l), Opt: []int{0, 30, 90, 135}[wl.Intn(4)], W: []float64{1, 0.5, -1}[wl.Intn(3)]}
+				case y < 18:
+					st = Step{Op: "fontinfo", Font: wl.Intn(nf)}
+				default:
+					st = Step{Op: "familyface", Size: 6 + float64(wl.Intn(40))*0.5, Style: wl.Intn(4), Variant: wl.Intn(3)}
+				}
 			case "geometry", "geometry1":
 				st = genGeometryStep(wl, l, tols)
 			case "fonts":
@@ -742,7 +773,7 @@ func GenRun(verifSeed uint64, run int, tier string, profiles []string) *RunSpec 
 	sc.DropRate = []float64{0, 0, 0.001, 0.01, 0.05}[cfgR.Intn(5)]
 	sc.LivePct = []int{100, 70, 70, 40}[cfgR.Intn(4)]
 	switch spec.Profile {
-	case "geometry", "geometry1", "fonts", "text", "syscache":
+	case "geometry", "geometry1", "fonts", "text", "syscache", "long1":
 		// time passes between calls in two thirds of the runs whose results carry no time stamps
 		// (PDF/PS CreationDate, head.modified of embedded fonts); not drawn from cfgR so that the
 		// programs and schedules of all runs stay what they were before this fault kind existed
